@@ -23,7 +23,9 @@ var (
 	litPool    = []string{"a", "b", "users", "v1", "a.b", "x-y", "A", "posts", "_m", "1"}
 	namePool   = []string{"id", "x", "y", "name", "file", "p1", "X_2", "rest"}
 	acceptPool = []string{"", "", "application/json", "application/xml", "application/gob", "application/json; charset=utf-8",
-		"*/*", "text/html,application/xhtml+xml,application/xml;q=0.9,*/*;q=0.8", "application/vnd.api+json", "text/plain", "text/html", "bogus"}
+		"*/*", "text/html,application/xhtml+xml,application/xml;q=0.9,*/*;q=0.8", "application/vnd.api+json", "text/plain", "text/html", "bogus",
+		// the same types as clients really send them: parameters, quality values, other case
+		"text/plain; charset=utf-8", "text/html;q=0.9", "Text/Plain", "TEXT/HTML; charset=UTF-8", "application/xml; q=0.5", "Application/JSON", "application/gob;v=1"}
 	// building blocks of wildcard values: percent look-alikes, reserved
 	// characters, things PathEscape and the default path encoding treat
 	// differently (';' ',' '/'), non-ASCII text, and plain text that collides
